@@ -15,6 +15,8 @@ def run(ctx, sess):
     ctx.not_decided = NOT_DECIDED
     P = sess.prog('default')
     ctx.rule('C01.a', 'the cached level-1 index/summary is reused only when its chunk_meta matches the requested signal id and the sample lies in its range')
+    ctx.rule('C01.c', '"whatever reads were issued before": sample bytes in the core read buffer are used only after a checked read or reconstruction of that block succeeded on the same path (no block is served from what an earlier call left in the buffer)')
+    ctx.rule('C01.d', '"whatever the first sample id was": the first block of a signal, which carries the sample-id offset, is always stored (omission masked by "a data chunk already exists")')
     ctx.rule('C01.b', 'grow-to-fit: buffer growth strictly increasing and overflow-free; the grow request covers the on-disk payload size for every residue')
     f = P.fn('jls_core_rd_fsr_level1')
     ctx.saw(f)
@@ -72,3 +74,8 @@ def run(ctx, sess):
     ctx.ob('C01.a', len(cp) >= 2, f.name, 'index and summary are copied into the cache after each read', f.where(), '%d copies' % len(cp))
     from .c10b import r8
     r8(ctx, P, rule='C01.b')
+    from .c04 import _freshness
+    from .common import exceptions
+    _freshness(ctx, P, exceptions('C04'), rule='C01.c')
+    from .c15 import first_block_stored
+    first_block_stored(ctx, P, 'C01.d')
